@@ -80,6 +80,27 @@ var Table = map[string]func(int) int{
 
 func init() { Hook(1) }
 `}},
+		{"line-directives", map[string]string{"gram/parser.go": `package gram
+
+func Before(a int) int { return a + 1 }
+
+type yyLexer struct{ k int }
+
+//line parser.y:10
+func yyReduce(a int) int {
+	f := func(v int) int { return v * 3 }
+	if a > 2 {
+		return f(a)
+	}
+	return a
+}
+
+//line parser.y:40
+func (l *yyLexer) Lex(a int) int { return a - l.k }
+
+//line /abs/elsewhere/gen.tmpl:7
+func Templated(a int) int { return a + 7 }
+`, "gram/plain.go": fn("gram", "Plain")}},
 		{"dotted-dir-names", map[string]string{"v1.2/api.go": fn("api", "Api"), "a.b/c..d/e.go": fn("e", "E"), "..weird/w.go": fn("w", "W")}},
 	}
 }
@@ -88,6 +109,10 @@ type c16Func struct {
 	file string
 	line int
 	desc string
+	// position as adjusted by a //line directive (what the Go toolchain itself reports); equal to
+	// file/line when there is no directive
+	adjFile string
+	adjLine int
 }
 
 // c16Inventory walks the tree independently.
@@ -126,10 +151,12 @@ func c16Inventory(root string) (files []string, funcs []c16Func, unanalysable ma
 			switch x := nd.(type) {
 			case *ast.FuncDecl:
 				if x.Body != nil {
-					funcs = append(funcs, c16Func{p, fset.Position(x.Pos()).Line, "func " + x.Name.Name})
+					ph, ad := fset.PositionFor(x.Pos(), false), fset.Position(x.Pos())
+					funcs = append(funcs, c16Func{p, ph.Line, "func " + x.Name.Name, ad.Filename, ad.Line})
 				}
 			case *ast.FuncLit:
-				funcs = append(funcs, c16Func{p, fset.Position(x.Pos()).Line, "func literal"})
+				ph, ad := fset.PositionFor(x.Pos(), false), fset.Position(x.Pos())
+				funcs = append(funcs, c16Func{p, ph.Line, "func literal", ad.Filename, ad.Line})
 			}
 			return true
 		})
@@ -267,7 +294,7 @@ func TestVerifC16(t *testing.T) {
 				if withErr[fn.file] {
 					continue
 				}
-				if !reported[fmt.Sprintf("%s:%d", fn.file, fn.line)] {
+				if !reported[fmt.Sprintf("%s:%d", fn.file, fn.line)] && !reported[fmt.Sprintf("%s:%d", fn.adjFile, fn.adjLine)] {
 					bad = append(bad, fmt.Sprintf("%s at %s:%d is not fingerprinted (not attributed to its file and line anywhere in the report)", fn.desc, strings.TrimPrefix(fn.file, root+"/"), fn.line))
 				}
 			}
